@@ -358,7 +358,7 @@ func c32RunHistory(t *testing.T, rep *vfReport, r *vfRng, nOps, maxReal int, scr
 	h.emit(fmt.Sprintf("bootstrap %s %s@%s", vfHex(n0.Name), vfHex(n0.Name), vfHex(n0.Addr)), "ok "+c32CfgStr(cfg0))
 	h.hist = append(h.hist, "bootstrap "+c32Human(cfg0))
 	ghostIDs := []string{}
-	kinds := []string{"join-new-voter", "join-new-voter", "join-new-nonvoter", "rejoin-same", "rejoin-other-role", "rejoin-new-address",
+	kinds := []string{"join-new-voter", "join-new-voter", "join-new-nonvoter", "rejoin-same", "rejoin-other-role", "rejoin-new-address", "rejoin-new-address-other-role",
 		"new-id-on-used-address", "ghost-nonvoter", "used-id-on-new-address", "remove-member", "remove-unknown", "join-on-follower",
 		"reap-observation", "reap-observation"}
 	for i := 0; i < nOps && h.aborted == ""; i++ {
@@ -448,6 +448,26 @@ func c32RunHistory(t *testing.T, rep *vfReport, r *vfRng, nOps, maxReal int, scr
 				continue // a ghost must never become a voter (it would block the quorum)
 			}
 			h.join("rejoin-other-role", h.leader, m.id, m.addr, !m.voter)
+		case "rejoin-new-address-other-role", "rejoin-new-address-other-role-last":
+			// the same node comes back on ANOTHER address AND asks for the OTHER role
+			var cand []c32Member
+			for _, m := range realOthers {
+				if (!m.voter || voters >= 3) && (kind == "rejoin-new-address-other-role" || m.id == h.last) {
+					cand = append(cand, m)
+				}
+			}
+			if len(cand) == 0 {
+				continue
+			}
+			m := cand[r.Intn(len(cand))]
+			n := h.node(m.id)
+			c.Stop(n)
+			n.Addr = "127.0.0.1:0"
+			if err := c.Restart(n); err != nil {
+				h.aborted = "restart: " + err.Error()
+				break
+			}
+			h.join("rejoin-new-address-other-role", h.leader, n.Name, n.Addr, !m.voter)
 		case "rejoin-new-address":
 			// only when the cluster keeps its quorum while the node is away
 			var cand []c32Member
@@ -729,6 +749,9 @@ func TestVerifC32(t *testing.T) {
 	directed = append(directed,
 		[]string{"join-new-voter", "join-new-nonvoter", "reap-last-1m", "rejoin-other-role-last", "reap-last-7m", "reap-last-20m"},
 		[]string{"join-new-voter", "join-new-voter", "reap-last-1m", "rejoin-other-role-last", "reap-last-1m", "reap-last-7m"})
+	// the same node re-joins on a NEW address asking for the OTHER role: voter -> non-voter, then back
+	directed = append(directed,
+		[]string{"join-new-voter", "join-new-voter", "rejoin-new-address-other-role-last", "rejoin-new-address-other-role-last", "rejoin-same"})
 	for _, sc := range directed {
 		guarded(len(sc), sc)
 	}
